@@ -8,7 +8,7 @@ import (
 // authenticateRequest: "authenticated" implies every credential condition; every refusal is answered
 // at most once with the documented challenge/error carrying the request's transaction id and method.
 //
-//verif:props=C03,C19 bounds="each of MESSAGE-INTEGRITY/NONCE/REALM/USERNAME present or absent with arbitrary 4-byte values; arbitrary nonce/auth-handler verdicts; handler present or nil; integrity verdict arbitrary (HMAC unconstrained); control-socket write may fail"
+//verif:props=C03,C19 replay=model bounds="each of MESSAGE-INTEGRITY/NONCE/REALM/USERNAME present or absent with arbitrary 4-byte values; arbitrary nonce/auth-handler verdicts; handler present or nil; integrity verdict arbitrary (HMAC unconstrained); control-socket write may fail"
 func VerifHarness_C03_auth_logic() {
 	s := vNewSrv(false, false)
 	hasMI, hasNonce, hasRealm, hasUser := vBool(), vBool(), vBool(), vBool()
